@@ -17,6 +17,7 @@ func genSuffix(run func(string) string, r *rng.R, maxOps int) {
 	fresh := 10               // members that never led so far (their allocator managers have seen nothing)
 	assigned := map[int]int{} // dc that has a suffix and still has its server -> server id
 	gone := []int{}           // dcs that have a suffix and no server any more
+	twin := map[int]bool{}    // dcs whose "x-" twin has joined (before them)
 	leader := 1
 	run("slead 1")
 	nextDC, nextSrv := 1, 1
@@ -57,9 +58,17 @@ func genSuffix(run func(string) string, r *rng.R, maxOps int) {
 			}
 		case 0: // a new dc joins (only when none is waiting)
 			if unassigned == 0 && nextDC <= 12 {
-				run(fmt.Sprintf("dcjoin %d %d", nextSrv, nextDC))
-				unassigned, unSrv = nextDC, nextSrv
-				nextDC++
+				dc := nextDC
+				// sometimes the dc "x-dc<n>" joins before "dc<n>": the later name is then the tail of an existing one
+				if !twin[nextDC] && r.Bool(1, 4) {
+					dc = 20 + nextDC
+					twin[nextDC] = true
+				}
+				run(fmt.Sprintf("dcjoin %d %d", nextSrv, dc))
+				unassigned, unSrv = dc, nextSrv
+				if dc == nextDC {
+					nextDC++
+				}
 				nextSrv++
 			}
 		case 1: // the leader runs the checker
@@ -112,7 +121,30 @@ func genProtocol(p *pworld, run func(string) string, r *rng.R, maxOps int) {
 	run("pinit")
 	n := r.Range(4, maxOps)
 	for i := 0; i < n; i++ {
-		switch r.Pick(30, 30, 18, 12, 5, 5, 4, 4) {
+		switch r.Pick(30, 30, 18, 12, 5, 5, 4, 4, 3) {
+		case 8:
+			// both local allocators further ahead of the global one than the reset gap (24 h) lets it jump, in two
+			// accepted steps of 20 h: a global request then fails in every attempt at its persist step – after its
+			// collect phase – and has to be refused; the clock is moved on afterwards so that the next sequence
+			// starts from a consistent state
+			f := strings.Fields(p.view())
+			for d := 1; d <= 2; d++ {
+				var ms, l int64
+				fmt.Sscanf(strings.ReplaceAll(f[d], ":", " "), "%d %d", &ms, &l)
+				run(fmt.Sprintf("setts %d %d %d", d, ms+72000000, r.Intn(100)))
+				run(fmt.Sprintf("setts %d %d %d", d, ms+144000000, r.Intn(100)))
+			}
+			run(fmt.Sprintf("req %d 1", r.Range(1, 2)))
+			run(fmt.Sprintf("reqfail 0 %d", r.Range(1, 3)))
+			// bring the global allocator up in two accepted steps as well
+			f = strings.Fields(p.view())
+			var gms, gl int64
+			fmt.Sscanf(strings.ReplaceAll(f[0], ":", " "), "%d %d", &gms, &gl)
+			run(fmt.Sprintf("setts 0 %d 0", gms+72000000))
+			run(fmt.Sprintf("setts 0 %d 0", gms+144000000+1))
+			run("req 0 1")
+			run("pinit")
+			return
 		case 7:
 			// a request the server refuses (unknown dc-location) or serves, on a raw Tso stream: a refusal has to be an
 			// error, not a response without a timestamp
